@@ -333,7 +333,27 @@ def rule_l5(ctx):
         ctx.ok("L5-reachability-cache", f"{PRED}:reachable", "reachability asked of the graph itself", site(r), "graph.reachable(f_node, t_node)")
 
 
+def rule_l6(ctx):
+    """infer_variable_contexts: the contexts (str.len / str.to.int / other) in which a variable occurs are collected over ALL formulas - the per-formula maps
+    variable -> set of parents are merged key-wise (union of the sets); a plain dict union keeps only the last formula's set."""
+    f = ctx.repo.func(SOLVER, "ISLaSolver.infer_variable_contexts", "C14.L6")
+    c = f"{SOLVER}:ISLaSolver.infer_variable_contexts"
+    pr = [a for a in walk_local(f) if isinstance(a, ast.Assign) and src(a.targets[0]) == "parent_relationships"]
+    if len(pr) != 1 or not (isinstance(pr[0].value, ast.Call) and call_name(pr[0].value) in ("reduce", "functools.reduce")):
+        raise Unrecognised("C14.L6", c, "merge of the per-formula parent relationships not found")
+    op = src(pr[0].value.args[0])
+    if op == "merge_dict_of_sets":
+        ctx.ok("L6-contexts-merged", c, "per-formula maps merged key-wise", site(pr[0]), "reduce(merge_dict_of_sets, ...)")
+    elif op in ("operator.or_", "dict.__or__") or "a | b" in op or "{**" in op:
+        ctx.viol("L6-contexts-merged", c, "per-formula maps merged key-wise", site(pr[0]),
+                 f"the maps are combined with `{op}` (dict union): for a variable that occurs in two formulas only the LAST formula's contexts survive - with `str.len(x) >= 3` and "
+                 "`str.to.int(x) <= 50` x is classified as a pure int (or pure length) variable and the tree built for it violates the other requirement")
+    else:
+        raise Unrecognised("C14.L6", c, f"merge operator `{op}` not understood")
+
+
 def run(ctx) -> str:
+    ctx.guarded("L6", lambda: rule_l6(ctx))
     ctx.guarded("L5", lambda: rule_l5(ctx))
     ctx.guarded("L4", lambda: rule_l4(ctx))
     ctx.guarded("L1", lambda: rule_l1(ctx))
